@@ -8,6 +8,7 @@ package main
 // order, so a property decided on the variant is decided for the program.
 
 import (
+	"go/token"
 	"strings"
 	"os"
 	"bytes"
@@ -43,6 +44,11 @@ func (p *Prog) helperEligible(g *ssa.Function) bool {
 	if g.Name() == "init" || g.Name() == "main" {
 		return false
 	}
+	// an exported method whose name the validated tree already uses for some method (Acquire, Release, UpdateLimit,
+	// OnSample, ...) carries a role the rules look for by that name: it stays a call
+	if token.IsExported(g.Name()) && p.baselineNames != nil && p.baselineNames[g.Name()] {
+		return false
+	}
 	if g.TypeParams().Len() > 0 && len(g.TypeArgs()) == 0 {
 		return false // the generic body itself
 	}
@@ -63,6 +69,12 @@ func (p *Prog) InlineHelpers(noInline map[string]bool) (inlined []string, remove
 					}
 				}
 			}
+		}
+	}
+	p.baselineNames = map[string]bool{}
+	for k := range noInline {
+		if i := strings.LastIndex(k, "."); i >= 0 {
+			p.baselineNames[k[i+1:]] = true
 		}
 	}
 	everInlined := map[*ssa.Function]bool{}
